@@ -34,6 +34,7 @@ fn opts() -> Opts {
     o.join_pct = 6;
     o.multiline_tag_pct = 10;
     o.close_attr_pct = 8;
+    o.bom_pct = 3;
     o
 }
 
